@@ -107,6 +107,11 @@ def catalogue():
   C["skip(True)"] = S(lambda s: Stream(s).skip(True), lambda k: k + 1)
   C["skip(-1.5)"] = S(lambda s: Stream(s).skip(-1.5), lambda k: k)
   C["limit(100.0)"] = S(lambda s: Stream(s).limit(100.0), lambda k: k, chain=False)
+  from audiolazy import attack as _attack, adsr as _adsr
+  # a stream-valued sustain level: the first output needs its first item (it fixes the decay slope),
+  # the others are read one per output after the attack and decay parts
+  C["attack(stream sustain)"] = S(lambda s: _attack(2, 3, s), lambda k: 1 if k <= 5 else k - 4, chain=False)
+  C["attack(stream sustain, 2.5, 1.5)"] = S(lambda s: _attack(2.5, 1.5, Stream(s)), lambda k: 1 if k <= 5 else k - 4, chain=False)
   C["skip.skip"] = S(lambda s: Stream(s).skip(2).skip(1.0), lambda k: k + 3)
   C["limit5"] = S(lambda s: Stream(s).limit(5), lambda k: min(k, 5), chain=False, finite=5)
   C["islice(4)"] = S(lambda s: li.islice(s, 4), lambda k: min(k, 4), chain=False, finite=4)
